@@ -1,7 +1,862 @@
-(* Kmer_proofs.v — lemmas for C20 *)
-From Coq Require Import Lia.
+(* Kmer_proofs.v — lemmas for C20: word-level facts, state invariant of the sliding Kmer,
+   reverse_complement_kmer, enumerate_kmers against the from-scratch specification. *)
+From Coq Require Import Lia ZifyBool ZifyN ZifyNat.
 From Ragc Require Import Mach Consts_kmer Kmer.
 Open Scope N_scope.
+Arguments N.add : simpl never.
+Arguments N.sub : simpl never.
+Arguments N.mul : simpl never.
+Arguments N.shiftl : simpl never.
+Arguments N.shiftr : simpl never.
+Arguments N.land : simpl never.
+Arguments N.lor : simpl never.
+Arguments N.modulo : simpl never.
+Arguments N.div : simpl never.
+Arguments N.pow : simpl never.
+Arguments N.min : simpl never.
 
-Lemma data_canonical_min_proof : forall x, data_canonical x = N.min (kdir x) (krc x).
+Definition kdom (k : N) : Prop := 1 <= k <= 32.
+
+(* ------------------------------------------------------------------ *)
+(* powers                                                              *)
+Lemma two64_pow : two64 = 2 ^ 64.
 Proof. reflexivity. Qed.
+
+Lemma four_pow : forall x, 4 ^ x = 2 ^ (2 * x).
+Proof. intro x. rewrite N.pow_mul_r. reflexivity. Qed.
+
+Lemma pow2_pos : forall x, 0 < 2 ^ x.
+Proof. intro x. apply N.neq_0_lt_0. apply N.pow_nonzero. discriminate. Qed.
+
+Lemma pow4_pos : forall x, 0 < 4 ^ x.
+Proof. intro x. apply N.neq_0_lt_0. apply N.pow_nonzero. discriminate. Qed.
+
+(* 2^(64-2n) * 4^n = 2^64 *)
+Lemma pow_split : forall n, n <= 32 -> 2 ^ (64 - 2 * n) * 4 ^ n = 2 ^ 64.
+Proof.
+  intros n H. rewrite four_pow, <- N.pow_add_r. f_equal. lia.
+Qed.
+
+(* 2^(64-2n) = 4^(k-n) * 2^(64-2k) *)
+Lemma pow_shift_split : forall k n, n <= k -> k <= 32 ->
+  2 ^ (64 - 2 * n) = 4 ^ (k - n) * 2 ^ (64 - 2 * k).
+Proof.
+  intros k n H1 H2. rewrite four_pow, <- N.pow_add_r. f_equal. lia.
+Qed.
+
+Lemma pow4_succ : forall n, 4 ^ (n + 1) = 4 * 4 ^ n.
+Proof. intro n. rewrite N.pow_add_r. rewrite N.pow_1_r. lia. Qed.
+
+Lemma pow4_pred : forall k, 1 <= k -> 4 ^ k = 4 * 4 ^ (k - 1).
+Proof. intros k H. rewrite <- pow4_succ. f_equal. lia. Qed.
+
+Lemma pow2_62 : forall k, kdom k -> 2 ^ 62 = 4 ^ (k - 1) * 2 ^ (kshift k).
+Proof.
+  intros k [H1 H2]. unfold kshift. rewrite four_pow, <- N.pow_add_r. f_equal. lia.
+Qed.
+
+Lemma kshift_split : forall k, kdom k -> 2 ^ (kshift k) * 4 ^ k = 2 ^ 64.
+Proof. intros k [H1 H2]. unfold kshift. apply pow_split. exact H2. Qed.
+
+(* ------------------------------------------------------------------ *)
+(* word-level lemmas                                                   *)
+
+Lemma shl64_small : forall x s, x * 2 ^ s < 2 ^ 64 -> shl64 x s = x * 2 ^ s.
+Proof.
+  intros x s H. unfold shl64, wrap64. rewrite two64_pow, N.shiftl_mul_pow2.
+  apply N.mod_small. exact H.
+Qed.
+
+Lemma testbit_high : forall x n i, x < 2 ^ n -> n <= i -> N.testbit x i = false.
+Proof.
+  intros x n i H Hi. rewrite <- (N.mod_small x (2 ^ n) H).
+  apply N.mod_pow2_bits_high. exact Hi.
+Qed.
+
+(* x land mask = (x / 2^shift) * 2^shift for a 64-bit x *)
+Lemma land_kmask : forall k x, kdom k -> x < 2 ^ 64 ->
+  N.land x (kmask k) = x / 2 ^ (kshift k) * 2 ^ (kshift k).
+Proof.
+  intros k x [H1 H2] Hx.
+  assert (Hs : kshift k <= 62) by (unfold kshift; lia).
+  apply N.bits_inj. intro i.
+  rewrite N.land_spec.
+  rewrite <- N.shiftl_mul_pow2, <- N.shiftr_div_pow2.
+  unfold kmask, shl64, wrap64. rewrite two64_pow.
+  change max_u64 with (N.ones 64).
+  destruct (N.lt_ge_cases i 64) as [Hi | Hi].
+  - rewrite N.mod_pow2_bits_low by exact Hi.
+    destruct (N.lt_ge_cases i (kshift k)) as [Hl | Hl].
+    + rewrite !N.shiftl_spec_low by exact Hl. apply andb_false_r.
+    + rewrite !N.shiftl_spec_high' by exact Hl.
+      rewrite N.ones_spec_low by lia. rewrite andb_true_r.
+      rewrite N.shiftr_spec'. f_equal. lia.
+  - rewrite N.mod_pow2_bits_high by exact Hi. rewrite andb_false_r.
+    destruct (N.lt_ge_cases i (kshift k)) as [Hl | Hl].
+    + rewrite N.shiftl_spec_low by exact Hl. reflexivity.
+    + rewrite N.shiftl_spec_high' by exact Hl. rewrite N.shiftr_spec'.
+      symmetry. apply (testbit_high x 64); [exact Hx | lia].
+Qed.
+
+(* disjoint or = plus *)
+Lemma lor_disjoint_add : forall b m c, c < 2 ^ m -> N.lor (b * 2 ^ m) c = b * 2 ^ m + c.
+Proof.
+  intros b m c Hc.
+  assert (Hd : N.land (b * 2 ^ m) c = 0).
+  { apply N.bits_inj. intro i. rewrite N.land_spec, N.bits_0.
+    rewrite <- N.shiftl_mul_pow2.
+    destruct (N.lt_ge_cases i m) as [Hl | Hl].
+    - rewrite N.shiftl_spec_low by exact Hl. reflexivity.
+    - rewrite (testbit_high c m i Hc Hl). apply andb_false_r. }
+  rewrite (N.add_nocarry_lxor _ _ Hd). symmetry. apply N.lxor_lor. exact Hd.
+Qed.
+
+Lemma rc_base_lt : forall s, s < 4 -> kmer_rc_base s < 4.
+Proof.
+  intros s H.
+  assert (s = 0 \/ s = 1 \/ s = 2 \/ s = 3) as [E|[E|[E|E]]] by lia; subst s; reflexivity.
+Qed.
+
+Lemma rc_base_invol : forall s, s < 4 -> kmer_rc_base (kmer_rc_base s) = s.
+Proof.
+  intros s H.
+  assert (s = 0 \/ s = 1 \/ s = 2 \/ s = 3) as [E|[E|[E|E]]] by lia; subst s; reflexivity.
+Qed.
+
+(* --- direct word, window full: (dir*4 mod 2^64) + s*2^shift --- *)
+Lemma dir_full_sum : forall k P s, kdom k -> P < 4 ^ k -> s < 4 ->
+  shl64 (P * 2 ^ (kshift k)) 2 + shl64 s (kshift k)
+  = ((P mod 4 ^ (k - 1)) * 4 + s) * 2 ^ (kshift k)
+  /\ ((P mod 4 ^ (k - 1)) * 4 + s) * 2 ^ (kshift k) < 2 ^ 64.
+Proof.
+  intros k P s Hk HP Hs.
+  pose proof (kshift_split k Hk) as HS.
+  destruct Hk as [H1 H2].
+  pose proof (pow4_pred k H1) as H4.
+  pose proof (pow2_pos (kshift k)) as HT.
+  pose proof (pow4_pos (k - 1)) as HF.
+  set (T := 2 ^ (kshift k)) in *. set (F := 4 ^ (k - 1)) in *.
+  assert (Hm : P mod F < F) by (apply N.mod_lt; lia).
+  assert (Hb : (P mod F * 4 + s) * T < 2 ^ 64).
+  { rewrite <- HS, H4. nia. }
+  split; [| exact Hb].
+  assert (E1 : shl64 (P * T) 2 = (P mod F) * 4 * T).
+  { unfold shl64, wrap64. rewrite two64_pow, N.shiftl_mul_pow2.
+    change (2 ^ 2) with 4.
+    replace (P * T * 4) with (P * (4 * T)) by lia.
+    replace (2 ^ 64) with (F * (4 * T)) by (rewrite <- HS, H4; lia).
+    rewrite N.mul_mod_distr_r by lia. lia. }
+  assert (E2 : shl64 s (kshift k) = s * T).
+  { apply shl64_small. fold T. rewrite <- HS, H4. nia. }
+  rewrite E1, E2. lia.
+Qed.
+
+(* --- direct word, fill-up --- *)
+Lemma dir_fill_sum : forall n P s, n + 1 <= 32 -> P < 4 ^ n -> s < 4 ->
+  P * 2 ^ (64 - 2 * n) + shl64 s (64 - 2 * (n + 1))
+  = (P * 4 + s) * 2 ^ (64 - 2 * (n + 1))
+  /\ (P * 4 + s) * 2 ^ (64 - 2 * (n + 1)) < 2 ^ 64.
+Proof.
+  intros n P s Hn HP Hs.
+  pose proof (pow_split (n + 1) Hn) as HS. rewrite pow4_succ in HS.
+  assert (E : 2 ^ (64 - 2 * n) = 4 * 2 ^ (64 - 2 * (n + 1))).
+  { change 4 with (2 ^ 2). rewrite <- N.pow_add_r. f_equal. lia. }
+  pose proof (pow2_pos (64 - 2 * (n + 1))) as HT.
+  pose proof (pow4_pos n) as HF.
+  set (T := 2 ^ (64 - 2 * (n + 1))) in *. set (F := 4 ^ n) in *.
+  assert (Hb : (P * 4 + s) * T < 2 ^ 64) by (rewrite <- HS; nia).
+  split; [| exact Hb].
+  rewrite E. rewrite shl64_small by (fold T; rewrite <- HS; nia). fold T. lia.
+Qed.
+
+(* --- reverse-complement word (both phases) --- *)
+Lemma rc_sum : forall k R s, kdom k -> R < 4 ^ k -> s < 4 ->
+  shr64 (R * 2 ^ (kshift k)) 2 + shl64 (kmer_rc_base s) 62 < 2 ^ 64
+  /\ rc_step k (R * 2 ^ (kshift k)) s
+     = (R / 4 + kmer_rc_base s * 4 ^ (k - 1)) * 2 ^ (kshift k).
+Proof.
+  intros k R s Hk HR Hs.
+  pose proof (kshift_split k Hk) as HS.
+  pose proof (pow2_62 k Hk) as H62.
+  pose proof (rc_base_lt s Hs) as Hc.
+  pose proof Hk as [H1 H2].
+  pose proof (pow4_pred k H1) as H4.
+  pose proof (pow2_pos (kshift k)) as HT.
+  pose proof (pow4_pos (k - 1)) as HF.
+  set (c := kmer_rc_base s) in *.
+  set (T := 2 ^ (kshift k)) in *. set (F := 4 ^ (k - 1)) in *.
+  assert (E1 : shr64 (R * T) 2 = R * T / 4).
+  { unfold shr64. rewrite N.shiftr_div_pow2. reflexivity. }
+  assert (E2 : shl64 c 62 = c * F * T).
+  { rewrite shl64_small; rewrite H62; [lia |]. rewrite <- HS, H4. nia. }
+  assert (Hq : R * T / 4 < F * T).
+  { apply N.div_lt_upper_bound; [lia |]. rewrite H4 in HR. nia. }
+  assert (Hsum : R * T / 4 + c * F * T < 2 ^ 64).
+  { rewrite <- HS, H4. nia. }
+  rewrite E1, E2. split; [exact Hsum |].
+  unfold rc_step. fold c. rewrite E1, E2.
+  unfold wrap64. rewrite two64_pow. rewrite (N.mod_small _ _ Hsum).
+  rewrite (land_kmask k _ Hk Hsum). fold T. f_equal.
+  replace (c * F * T) with ((c * F) * T) by lia.
+  rewrite N.div_add by lia. f_equal.
+  rewrite N.div_div by lia.
+  replace (4 * T) with (4 * T) by reflexivity.
+  rewrite (N.mul_comm 4 T).
+  replace (R * T / (T * 4)) with (R * T / (4 * T)) by (f_equal; lia).
+  apply N.div_mul_cancel_r; lia.
+Qed.
+
+(* ------------------------------------------------------------------ *)
+(* lists, packing, reverse complement                                  *)
+
+Lemma lenN_nil : forall A, lenN (@nil A) = 0.
+Proof. reflexivity. Qed.
+
+Lemma lenN_cons : forall A (a : A) l, lenN (a :: l) = lenN l + 1.
+Proof. intros. unfold lenN. cbn [length]. lia. Qed.
+
+Lemma lenN_app : forall A (a b : list A), lenN (a ++ b) = lenN a + lenN b.
+Proof. intros. unfold lenN. rewrite app_length. lia. Qed.
+
+Lemma packv_acc : forall w acc, packv acc w = acc * 4 ^ lenN w + packed w.
+Proof.
+  induction w as [| b w IH]; intro acc.
+  - cbn [packv]. rewrite lenN_nil. unfold packed. cbn [packv]. rewrite N.pow_0_r. lia.
+  - unfold packed. cbn [packv]. rewrite (IH (acc * 4 + b)), (IH (0 * 4 + b)).
+    rewrite lenN_cons, pow4_succ. ring.
+Qed.
+
+Lemma packed_nil : packed [] = 0.
+Proof. reflexivity. Qed.
+
+Lemma packed_cons : forall a w, packed (a :: w) = a * 4 ^ lenN w + packed w.
+Proof.
+  intros a w. unfold packed at 1. cbn [packv]. rewrite packv_acc, N.mul_0_l, N.add_0_l. reflexivity.
+Qed.
+
+Lemma packv_snoc : forall w acc s, packv acc (w ++ [s]) = packv acc w * 4 + s.
+Proof.
+  induction w as [| b w IH]; intros acc s.
+  - reflexivity.
+  - cbn [app packv]. apply IH.
+Qed.
+
+Lemma packed_snoc : forall w s, packed (w ++ [s]) = packed w * 4 + s.
+Proof. intros. apply packv_snoc. Qed.
+
+Lemma packed_lt : forall w, Forall acgt w -> packed w < 4 ^ lenN w.
+Proof.
+  induction w as [| a w IH]; intro H.
+  - rewrite packed_nil, lenN_nil. reflexivity.
+  - inversion H as [| ? ? Ha Hw]; subst. specialize (IH Hw). unfold acgt in Ha.
+    rewrite packed_cons, lenN_cons, pow4_succ. nia.
+Qed.
+
+Lemma revcomp_snoc : forall w s, revcomp (w ++ [s]) = kmer_rc_base s :: revcomp w.
+Proof. intros. unfold revcomp. rewrite map_app, rev_app_distr. reflexivity. Qed.
+
+Lemma revcomp_cons : forall a w, revcomp (a :: w) = revcomp w ++ [kmer_rc_base a].
+Proof. reflexivity. Qed.
+
+Lemma revcomp_lenN : forall w, lenN (revcomp w) = lenN w.
+Proof. intro w. unfold revcomp, lenN. rewrite rev_length, map_length. reflexivity. Qed.
+
+Lemma revcomp_length : forall w, length (revcomp w) = length w.
+Proof. intro w. unfold revcomp. rewrite rev_length, map_length. reflexivity. Qed.
+
+Lemma revcomp_acgt : forall w, Forall acgt w -> Forall acgt (revcomp w).
+Proof.
+  intros w H. unfold revcomp. apply Forall_rev. apply Forall_map.
+  eapply Forall_impl; [| exact H]. intros a Ha. apply rc_base_lt. exact Ha.
+Qed.
+
+Lemma revcomp_invol : forall w, Forall acgt w -> revcomp (revcomp w) = w.
+Proof.
+  intros w H. unfold revcomp. rewrite map_rev, rev_involutive, map_map.
+  induction H as [| a w Ha Hw IH]; [reflexivity |].
+  cbn [map]. rewrite IH. f_equal. apply rc_base_invol. exact Ha.
+Qed.
+
+(* ------------------------------------------------------------------ *)
+(* the state after feeding symbols                                     *)
+
+Lemma feed_snoc : forall x l s, feed x (l ++ [s]) = insert_canonical (feed x l) s.
+Proof. intros. unfold feed. rewrite fold_left_app. reflexivity. Qed.
+
+Lemma feed_app : forall x a b, feed x (a ++ b) = feed (feed x a) b.
+Proof. intros. unfold feed. apply fold_left_app. Qed.
+
+Lemma kmax_insert : forall x s, kmax (insert_canonical x s) = kmax x.
+Proof. intros. unfold insert_canonical. destruct (kcur x =? kmax x); reflexivity. Qed.
+
+Lemma kmax_feed : forall l x, kmax (feed x l) = kmax x.
+Proof.
+  induction l as [| s l IH]; intro x; [reflexivity |].
+  unfold feed. cbn [fold_left]. fold (feed (insert_canonical x s) l).
+  rewrite IH. apply kmax_insert.
+Qed.
+
+(* fill-up phase: n symbols seen, n <= k *)
+Definition st_fill (k n P R : N) : kmer :=
+  mkKmer (P * 2 ^ (64 - 2 * n)) (R * 4 ^ (k - n) * 2 ^ (kshift k)) n k.
+(* window full *)
+Definition st_full (k : N) (w : list N) : kmer :=
+  mkKmer (left_aligned k w) (left_aligned k (revcomp w)) k k.
+
+Lemma st_fill_full : forall k w, lenN w = k ->
+  st_fill k (lenN w) (packed w) (packed (revcomp w)) = st_full k w.
+Proof.
+  intros k w H. unfold st_fill, st_full, left_aligned. rewrite H.
+  rewrite N.sub_diag, N.pow_0_r, N.mul_1_r. reflexivity.
+Qed.
+
+(* one insertion during fill-up; also: no overflow in the two sums *)
+Lemma insert_fill : forall k n P R s, kdom k -> n < k -> P < 4 ^ n -> R < 4 ^ n -> s < 4 ->
+  insert_canonical (st_fill k n P R) s
+  = st_fill k (n + 1) (P * 4 + s) (kmer_rc_base s * 4 ^ n + R).
+Proof.
+  intros k n P R s Hk Hn HP HR Hs. pose proof Hk as [H1 H2].
+  unfold insert_canonical, st_fill. cbn [kcur kmax kdir krc].
+  destruct (N.eqb_spec n k) as [E | _]; [lia |].
+  f_equal.
+  - unfold dir_step_fill.
+    destruct (dir_fill_sum n P s ltac:(lia) HP Hs) as [E B].
+    rewrite E. unfold wrap64. rewrite two64_pow. apply N.mod_small. exact B.
+  - assert (E4 : 4 ^ k = 4 ^ n * 4 ^ (k - n)).
+    { rewrite <- N.pow_add_r. f_equal. lia. }
+    assert (EG : 4 ^ (k - n) = 4 * 4 ^ (k - (n + 1))).
+    { rewrite <- pow4_succ. f_equal. lia. }
+    assert (EF : 4 ^ (k - 1) = 4 ^ n * 4 ^ (k - (n + 1))).
+    { rewrite <- N.pow_add_r. f_equal. lia. }
+    pose proof (pow4_pos n) as Hpn. pose proof (pow4_pos (k - (n + 1))) as Hpg.
+    assert (HR' : R * 4 ^ (k - n) < 4 ^ k) by (rewrite E4; nia).
+    destruct (rc_sum k (R * 4 ^ (k - n)) s Hk HR' Hs) as [_ E].
+    rewrite E. f_equal. rewrite EF, EG.
+    set (G := 4 ^ (k - (n + 1))) in *. set (F := 4 ^ n) in *.
+    replace (R * (4 * G)) with (R * G * 4) by ring.
+    rewrite N.div_mul by discriminate. ring.
+Qed.
+
+Lemma feed_fill : forall k l, kdom k -> Forall acgt l -> lenN l <= k ->
+  feed (kmer_new k) l = st_fill k (lenN l) (packed l) (packed (revcomp l)).
+Proof.
+  intros k l Hk. induction l as [| s l IH] using rev_ind; intros Hl Hlen.
+  - unfold feed, st_fill, kmer_new. cbn [fold_left].
+    change (revcomp []) with (@nil N). rewrite packed_nil, lenN_nil, !N.mul_0_l. reflexivity.
+  - apply Forall_app in Hl. destruct Hl as [Hl Hs]. inversion Hs as [| ? ? Hs' _]; subst.
+    rewrite lenN_app, lenN_cons, lenN_nil in Hlen |- *. rewrite N.add_0_l in *.
+    rewrite feed_snoc, IH by (assumption || lia).
+    rewrite insert_fill; try assumption; try lia.
+    + rewrite packed_snoc, revcomp_snoc, packed_cons, revcomp_lenN. reflexivity.
+    + apply packed_lt. exact Hl.
+    + rewrite <- (revcomp_lenN l). apply packed_lt. apply revcomp_acgt. exact Hl.
+Qed.
+
+(* one insertion into a full window *)
+Lemma insert_full : forall k a w s, kdom k -> lenN (a :: w) = k ->
+  Forall acgt (a :: w) -> s < 4 ->
+  insert_canonical (st_full k (a :: w)) s = st_full k (w ++ [s]).
+Proof.
+  intros k a w s Hk Hlen Hw Hs. pose proof Hk as [H1 H2].
+  pose proof (Forall_inv Hw) as Ha. pose proof (Forall_inv_tail Hw) as Hw'. unfold acgt in Ha.
+  rewrite lenN_cons in Hlen.
+  assert (Hn : lenN w = k - 1) by lia.
+  pose proof (packed_lt w Hw') as HPw. rewrite Hn in HPw.
+  pose proof (packed_lt (revcomp w) (revcomp_acgt w Hw')) as HRw.
+  rewrite revcomp_lenN, Hn in HRw.
+  pose proof (pow4_pred k H1) as H4. pose proof (pow4_pos (k - 1)) as HF.
+  unfold insert_canonical, st_full, left_aligned. cbn [kcur kmax kdir krc].
+  rewrite N.eqb_refl. f_equal.
+  - unfold dir_step_full.
+    assert (HP : packed (a :: w) < 4 ^ k).
+    { rewrite packed_cons, Hn, H4. nia. }
+    destruct (dir_full_sum k (packed (a :: w)) s Hk HP Hs) as [E B].
+    rewrite E. unfold wrap64. rewrite two64_pow, (N.mod_small _ _ B). f_equal.
+    rewrite packed_snoc. f_equal. f_equal.
+    rewrite packed_cons, Hn. rewrite N.add_comm, N.mod_add by lia.
+    apply N.mod_small. exact HPw.
+  - assert (HR : packed (revcomp (a :: w)) < 4 ^ k).
+    { pose proof (packed_lt (revcomp (a :: w)) (revcomp_acgt _ Hw)) as HR.
+      rewrite revcomp_lenN, lenN_cons, Hlen in HR. exact HR. }
+    destruct (rc_sum k (packed (revcomp (a :: w))) s Hk HR Hs) as [_ E].
+    rewrite E. f_equal.
+    rewrite revcomp_snoc, packed_cons, revcomp_lenN, Hn.
+    rewrite revcomp_cons, packed_snoc.
+    rewrite N.div_add_l by discriminate.
+    rewrite (N.div_small (kmer_rc_base a) 4) by (apply rc_base_lt; exact Ha).
+    ring.
+Qed.
+
+Lemma feed_full : forall k pre w, kdom k -> Forall acgt pre -> Forall acgt w -> lenN w = k ->
+  feed (kmer_new k) (pre ++ w) = st_full k w.
+Proof.
+  intros k pre. induction pre as [| a pre IH] using rev_ind; intros w Hk Hpre Hw Hlen.
+  - cbn [app]. rewrite feed_fill by (assumption || lia). apply st_fill_full. exact Hlen.
+  - apply Forall_app in Hpre. destruct Hpre as [Hpre Ha].
+    inversion Ha as [| ? ? Ha' _]; subst.
+    assert (Hne : w <> []).
+    { intro E. subst w. rewrite lenN_nil in Hk. destruct Hk. lia. }
+    destruct (exists_last Hne) as [w' [s E]]. subst w.
+    apply Forall_app in Hw. destruct Hw as [Hw' Hs]. inversion Hs as [| ? ? Hs' _]; subst.
+    rewrite <- app_assoc. cbn [app].
+    replace (pre ++ a :: w' ++ [s]) with ((pre ++ a :: w') ++ [s])
+      by (rewrite <- app_assoc; reflexivity).
+    rewrite feed_snoc.
+    assert (Hl' : lenN (a :: w') = lenN (w' ++ [s])).
+    { rewrite lenN_app, !lenN_cons, lenN_nil. lia. }
+    rewrite (IH (a :: w') Hk Hpre (Forall_cons a Ha' Hw') Hl').
+    apply insert_full; try assumption. constructor; assumption.
+Qed.
+
+(* ------------------------------------------------------------------ *)
+(* statements 1-4                                                      *)
+
+Lemma fill_phase_proof : forall k l, 1 <= k <= 32 -> Forall acgt l -> lenN l <= k ->
+  let x := feed (kmer_new k) l in
+  kdir x = packed l * 2 ^ (64 - 2 * lenN l) /\
+  krc x = packed (revcomp l) * 2 ^ (64 - 2 * lenN l) /\
+  kcur x = lenN l /\ kmax x = k /\ is_full x = (lenN l =? k).
+Proof.
+  intros k l Hk Hl Hlen. cbv zeta. rewrite (feed_fill k l Hk Hl Hlen).
+  unfold st_fill, is_full. cbn [kdir krc kcur kmax].
+  repeat split; try reflexivity.
+  rewrite (pow_shift_split k (lenN l)) by (destruct Hk; lia).
+  unfold kshift. ring.
+Qed.
+
+Lemma sliding_eq_scratch_proof : forall k pre w, 1 <= k <= 32 ->
+  Forall acgt pre -> Forall acgt w -> lenN w = k ->
+  let x := feed (kmer_new k) (pre ++ w) in
+  kdir x = left_aligned k w /\ krc x = left_aligned k (revcomp w) /\
+  kcur x = k /\ kmax x = k /\ is_full x = true.
+Proof.
+  intros k pre w Hk Hpre Hw Hlen. cbv zeta. rewrite (feed_full k pre w Hk Hpre Hw Hlen).
+  unfold st_full, is_full. cbn [kdir krc kcur kmax]. rewrite N.eqb_refl.
+  repeat split; reflexivity.
+Qed.
+
+Lemma canonical_is_min_proof : forall k pre w, 1 <= k <= 32 ->
+  Forall acgt pre -> Forall acgt w -> lenN w = k ->
+  data_canonical (feed (kmer_new k) (pre ++ w))
+  = N.min (left_aligned k w) (left_aligned k (revcomp w)).
+Proof.
+  intros k pre w Hk Hpre Hw Hlen. rewrite (feed_full k pre w Hk Hpre Hw Hlen). reflexivity.
+Qed.
+
+Lemma canonical_strand_symmetric_proof : forall k pre pre' w, 1 <= k <= 32 ->
+  Forall acgt pre -> Forall acgt pre' -> Forall acgt w -> lenN w = k ->
+  data_canonical (feed (kmer_new k) (pre ++ w))
+  = data_canonical (feed (kmer_new k) (pre' ++ revcomp w)).
+Proof.
+  intros k pre pre' w Hk Hpre Hpre' Hw Hlen.
+  rewrite (canonical_is_min_proof k pre w Hk Hpre Hw Hlen).
+  rewrite (canonical_is_min_proof k pre' (revcomp w) Hk Hpre' (revcomp_acgt w Hw))
+    by (rewrite revcomp_lenN; exact Hlen).
+  rewrite (revcomp_invol w Hw). apply N.min_comm.
+Qed.
+
+Lemma dir_flag_iff_le_proof : forall k pre w, 1 <= k <= 32 ->
+  Forall acgt pre -> Forall acgt w -> lenN w = k ->
+  (is_dir_oriented (feed (kmer_new k) (pre ++ w)) = true
+   <-> left_aligned k w <= left_aligned k (revcomp w)).
+Proof.
+  intros k pre w Hk Hpre Hw Hlen. rewrite (feed_full k pre w Hk Hpre Hw Hlen).
+  unfold is_dir_oriented, st_full. cbn [kdir krc]. apply N.leb_le.
+Qed.
+
+(* the ordering of the left-aligned values is the ordering of the packings *)
+Lemma left_aligned_le_iff : forall k a b,
+  left_aligned k a <= left_aligned k b <-> packed a <= packed b.
+Proof.
+  intros k a b. unfold left_aligned. pose proof (pow2_pos (kshift k)). split; intro; nia.
+Qed.
+
+(* ------------------------------------------------------------------ *)
+(* 7. no traps: the u64 sums stay below 2^64, 64 - 2k does not underflow *)
+
+Lemma reach_cases : forall k l, kdom k -> Forall acgt l ->
+  let x := feed (kmer_new k) l in
+  kmax x = k /\
+  ((kcur x = k /\ exists P R, P < 4 ^ k /\ R < 4 ^ k /\
+      kdir x = P * 2 ^ (kshift k) /\ krc x = R * 2 ^ (kshift k))
+   \/ (kcur x < k /\ exists P R, P < 4 ^ kcur x /\ R < 4 ^ k /\
+      kdir x = P * 2 ^ (64 - 2 * kcur x) /\ krc x = R * 2 ^ (kshift k))).
+Proof.
+  intros k l Hk Hl. cbv zeta. pose proof Hk as [H1 H2].
+  destruct (N.le_gt_cases k (lenN l)) as [Hge | Hlt].
+  - (* at least k symbols: split off the last k *)
+    set (m := (length l - N.to_nat k)%nat).
+    assert (El : l = firstn m l ++ skipn m l) by (symmetry; apply firstn_skipn).
+    assert (Hlen : lenN (skipn m l) = k).
+    { unfold lenN in *. rewrite skipn_length. unfold m. lia. }
+    rewrite El in Hl. apply Forall_app in Hl. destruct Hl as [Ha Hb].
+    rewrite El, (feed_full k _ _ Hk Ha Hb Hlen).
+    unfold st_full, left_aligned. cbn [kdir krc kcur kmax]. split; [reflexivity |].
+    left. split; [reflexivity |].
+    exists (packed (skipn m l)), (packed (revcomp (skipn m l))).
+    repeat split.
+    + pose proof (packed_lt _ Hb) as X. rewrite Hlen in X. exact X.
+    + pose proof (packed_lt _ (revcomp_acgt _ Hb)) as X. rewrite revcomp_lenN, Hlen in X. exact X.
+  - rewrite (feed_fill k l Hk Hl) by lia.
+    unfold st_fill. cbn [kdir krc kcur kmax]. split; [reflexivity |].
+    right. split; [exact Hlt |].
+    exists (packed l), (packed (revcomp l) * 4 ^ (k - lenN l)).
+    repeat split.
+    + apply packed_lt. exact Hl.
+    + assert (E4 : 4 ^ k = 4 ^ lenN l * 4 ^ (k - lenN l)).
+      { rewrite <- N.pow_add_r. f_equal. lia. }
+      pose proof (packed_lt (revcomp l) (revcomp_acgt l Hl)) as HR. rewrite revcomp_lenN in HR.
+      pose proof (pow4_pos (k - lenN l)). rewrite E4. nia.
+Qed.
+
+Lemma no_trap_dir_step_proof : forall k l s, 1 <= k <= 32 -> Forall acgt l -> acgt s ->
+  let x := feed (kmer_new k) l in
+  2 * k <= 64 /\ kshift k < 64 /\
+  (kcur x = kmax x ->
+     shl64 (kdir x) 2 + shl64 s (kshift k) < two64) /\
+  (kcur x <> kmax x ->
+     kcur x + 1 <= kmax x /\ 2 * (kcur x + 1) <= 64 /\ 64 - 2 * (kcur x + 1) < 64 /\
+     kdir x + shl64 s (64 - 2 * (kcur x + 1)) < two64).
+Proof.
+  intros k l s Hk Hl Hs. cbv zeta. pose proof Hk as [H1 H2]. unfold acgt in Hs.
+  destruct (reach_cases k l Hk Hl) as [Hm [[Hc [P [R [HP [HR [Ed Er]]]]]] | [Hc [P [R [HP [HR [Ed Er]]]]]]]].
+  - rewrite Hm, Hc, Ed.
+    split; [lia |]. split; [unfold kshift; lia |]. split.
+    + intros _. destruct (dir_full_sum k P s Hk HP Hs) as [E B]. rewrite E, two64_pow. exact B.
+    + intro C. exfalso. apply C. reflexivity.
+  - rewrite Hm, Ed.
+    split; [lia |]. split; [unfold kshift; lia |]. split.
+    + intro C. exfalso. lia.
+    + intros _. split; [lia |]. split; [lia |]. split; [lia |].
+      destruct (dir_fill_sum (kcur (feed (kmer_new k) l)) P s ltac:(lia) HP Hs) as [E B].
+      rewrite E, two64_pow. exact B.
+Qed.
+
+Lemma no_trap_rc_step_proof : forall k l s, 1 <= k <= 32 -> Forall acgt l -> acgt s ->
+  let x := feed (kmer_new k) l in
+  shr64 (krc x) 2 + shl64 (kmer_rc_base s) 62 < two64.
+Proof.
+  intros k l s Hk Hl Hs. cbv zeta. unfold acgt in Hs.
+  destruct (reach_cases k l Hk Hl) as [Hm [[Hc [P [R [HP [HR [Ed Er]]]]]] | [Hc [P [R [HP [HR [Ed Er]]]]]]]];
+    rewrite Er, two64_pow; apply (rc_sum k R s Hk HR Hs).
+Qed.
+
+(* consequently the wrap64 around the sums is the identity *)
+Lemma insert_no_wrap_proof : forall k l s, 1 <= k <= 32 -> Forall acgt l -> acgt s ->
+  let x := feed (kmer_new k) l in
+  (kcur x = kmax x -> dir_step_full k (kdir x) s = shl64 (kdir x) 2 + shl64 s (kshift k)) /\
+  (kcur x <> kmax x ->
+     dir_step_fill (kdir x) (kcur x + 1) s = kdir x + shl64 s (64 - 2 * (kcur x + 1))) /\
+  rc_step k (krc x) s = N.land (shr64 (krc x) 2 + shl64 (kmer_rc_base s) 62) (kmask k).
+Proof.
+  intros k l s Hk Hl Hs. cbv zeta.
+  destruct (no_trap_dir_step_proof k l s Hk Hl Hs) as [_ [_ [Hf Hn]]].
+  pose proof (no_trap_rc_step_proof k l s Hk Hl Hs) as Hr. cbv zeta in *.
+  split; [| split].
+  - intro E. unfold dir_step_full, wrap64. apply N.mod_small. apply Hf. exact E.
+  - intro E. unfold dir_step_fill, wrap64. apply N.mod_small. apply Hn. exact E.
+  - unfold rc_step, wrap64. rewrite (N.mod_small _ _ Hr). reflexivity.
+Qed.
+
+(* ------------------------------------------------------------------ *)
+(* 5. reverse_complement_kmer / canonical_kmer on left-aligned values  *)
+
+Lemma packv_app : forall x y acc, packv acc (x ++ y) = packv (packv acc x) y.
+Proof. induction x as [| a x IH]; intros; [reflexivity | cbn [app packv]; apply IH]. Qed.
+
+Lemma packed_app : forall x y, packed (x ++ y) = packed x * 4 ^ lenN y + packed y.
+Proof. intros. unfold packed at 1. rewrite packv_app, packv_acc. reflexivity. Qed.
+
+Lemma rck_loop_spec : forall k u v res, kdom k -> Forall acgt u -> Forall acgt v ->
+  lenN u + lenN v = k ->
+  res = packed (revcomp v) * 4 ^ lenN u * 2 ^ (kshift k) ->
+  rck_loop (left_aligned k (u ++ v)) (kshift k) k (length v) (length u) res
+  = left_aligned k (revcomp (u ++ v)).
+Proof.
+  intros k u. induction u as [| a u IH] using rev_ind; intros v res Hk Hu Hv Hlen Hres.
+  - cbn [length rck_loop app]. subst res. rewrite lenN_nil, N.pow_0_r, N.mul_1_r. reflexivity.
+  - apply Forall_app in Hu. destruct Hu as [Hu Ha]. apply Forall_inv in Ha. unfold acgt in Ha.
+    rewrite lenN_app, lenN_cons, lenN_nil, N.add_0_l in Hlen, Hres.
+    pose proof Hk as [H1 H2].
+    rewrite app_length. cbn [length]. rewrite Nat.add_1_r. cbn [rck_loop].
+    fold (lenN v).
+    rewrite <- app_assoc. cbn [app].
+    assert (Hsh : kshift k + 2 * lenN u + 2 * lenN v + 2 = 64) by (unfold kshift; lia).
+    pose proof (rc_base_lt a Ha) as Hc.
+    (* the extracted base is a *)
+    assert (Eb : N.land (shr64 (left_aligned k (u ++ a :: v)) (kshift k + 2 * lenN v)) 3 = a).
+    { unfold shr64, left_aligned. rewrite N.shiftr_div_pow2.
+      rewrite N.pow_add_r, <- four_pow.
+      rewrite (N.mul_comm (2 ^ kshift k) (4 ^ lenN v)).
+      pose proof (pow2_pos (kshift k)). pose proof (pow4_pos (lenN v)).
+      rewrite N.div_mul_cancel_r by lia.
+      replace (u ++ a :: v) with ((u ++ [a]) ++ v) by (rewrite <- app_assoc; reflexivity).
+      rewrite packed_app, packed_snoc.
+      rewrite N.div_add_l by lia.
+      rewrite (N.div_small (packed v)) by (apply packed_lt; exact Hv).
+      rewrite N.add_0_r.
+      change 3 with (N.ones 2). rewrite N.land_ones. change (2 ^ 2) with 4.
+      rewrite N.add_comm, N.mod_add by discriminate. apply N.mod_small. exact Ha. }
+    rewrite Eb.
+    (* the or-ed piece does not overlap what is already there *)
+    assert (Ep : shl64 (kmer_rc_base a) (kshift k + 2 * (k - 1 - lenN v))
+                 = kmer_rc_base a * 2 ^ (kshift k + 2 * lenN u)).
+    { replace (k - 1 - lenN v) with (lenN u) by lia.
+      apply shl64_small.
+      apply N.lt_le_trans with (4 * 2 ^ (kshift k + 2 * lenN u)).
+      - pose proof (pow2_pos (kshift k + 2 * lenN u)). nia.
+      - change 4 with (2 ^ 2). rewrite <- N.pow_add_r. apply N.pow_le_mono_r; [discriminate | lia]. }
+    rewrite Ep.
+    assert (Er : res = packed (revcomp v) * 2 ^ (kshift k + 2 * lenN u + 2)).
+    { rewrite Hres, four_pow, <- N.mul_assoc, <- N.pow_add_r. f_equal. f_equal. lia. }
+    rewrite Er at 1.
+    rewrite lor_disjoint_add.
+    2:{ rewrite (N.pow_add_r 2 (kshift k + 2 * lenN u) 2). change (2 ^ 2) with 4.
+        pose proof (pow2_pos (kshift k + 2 * lenN u)). nia. }
+    change (S (length v)) with (length (a :: v)).
+    apply IH; try assumption.
+    + constructor; assumption.
+    + rewrite lenN_cons. lia.
+    + rewrite revcomp_cons, packed_snoc.
+      rewrite !N.pow_add_r, <- !four_pow. change (2 ^ 2) with 4. ring.
+Qed.
+
+Lemma rc_kmer_spec_proof : forall k w, 1 <= k <= 32 -> Forall acgt w -> lenN w = k ->
+  reverse_complement_kmer (left_aligned k w) k = left_aligned k (revcomp w).
+Proof.
+  intros k w Hk Hw Hlen. unfold reverse_complement_kmer.
+  replace (N.to_nat k) with (length w) by (unfold lenN in Hlen; lia).
+  rewrite <- (app_nil_r w) at 1 3.
+  change 0%nat with (length (@nil N)).
+  apply rck_loop_spec; try assumption.
+  - constructor.
+  - rewrite lenN_nil. lia.
+  - change (revcomp []) with (@nil N). rewrite packed_nil. reflexivity.
+Qed.
+
+Lemma rc_kmer_involutive_proof : forall k w, 1 <= k <= 32 -> Forall acgt w -> lenN w = k ->
+  reverse_complement_kmer (reverse_complement_kmer (left_aligned k w) k) k = left_aligned k w.
+Proof.
+  intros k w Hk Hw Hlen.
+  rewrite (rc_kmer_spec_proof k w Hk Hw Hlen).
+  rewrite (rc_kmer_spec_proof k (revcomp w) Hk (revcomp_acgt w Hw))
+    by (rewrite revcomp_lenN; exact Hlen).
+  rewrite (revcomp_invol w Hw). reflexivity.
+Qed.
+
+Lemma canonical_kmer_spec_proof : forall k w, 1 <= k <= 32 -> Forall acgt w -> lenN w = k ->
+  canonical_kmer (left_aligned k w) k = N.min (left_aligned k w) (left_aligned k (revcomp w)).
+Proof.
+  intros k w Hk Hw Hlen. unfold canonical_kmer.
+  rewrite (rc_kmer_spec_proof k w Hk Hw Hlen). reflexivity.
+Qed.
+
+Lemma canonical_kmer_strand_symmetric_proof : forall k w, 1 <= k <= 32 -> Forall acgt w ->
+  lenN w = k ->
+  canonical_kmer (left_aligned k (revcomp w)) k = canonical_kmer (left_aligned k w) k.
+Proof.
+  intros k w Hk Hw Hlen.
+  rewrite (canonical_kmer_spec_proof k w Hk Hw Hlen).
+  rewrite (canonical_kmer_spec_proof k (revcomp w) Hk (revcomp_acgt w Hw))
+    by (rewrite revcomp_lenN; exact Hlen).
+  rewrite (revcomp_invol w Hw). apply N.min_comm.
+Qed.
+
+(* ------------------------------------------------------------------ *)
+(* 6. enumerate_kmers                                                  *)
+
+Lemma lastn_all : forall A n (l : list A), (length l <= n)%nat -> lastn n l = l.
+Proof.
+  intros A n l H. unfold lastn. replace (length l - n)%nat with 0%nat by lia. reflexivity.
+Qed.
+
+Lemma lastn_snoc : forall A n (l : list A) b, (n <= length l)%nat ->
+  lastn (S n) (l ++ [b]) = lastn n l ++ [b].
+Proof.
+  intros A n l b H. unfold lastn. rewrite app_length. cbn [length].
+  replace (length l + 1 - S n)%nat with (length l - n)%nat by lia.
+  rewrite skipn_app. replace (length l - n - length l)%nat with 0%nat by lia. reflexivity.
+Qed.
+
+Lemma skipn_S_tl : forall A m (l : list A), skipn (S m) l = tl (skipn m l).
+Proof.
+  intros A m. induction m as [| m IH]; intro l.
+  - destruct l; reflexivity.
+  - destruct l as [| a l]; [reflexivity |]. cbn [skipn] in *. apply IH.
+Qed.
+
+Lemma lastn_tl : forall A n (l : list A), (S n <= length l)%nat ->
+  lastn n l = tl (lastn (S n) l).
+Proof.
+  intros A n l H. unfold lastn.
+  replace (length l - n)%nat with (S (length l - S n)) by lia. apply skipn_S_tl.
+Qed.
+
+Lemma lastn_length : forall A n (l : list A), length (lastn n l) = Nat.min n (length l).
+Proof. intros. unfold lastn. rewrite skipn_length. lia. Qed.
+
+Lemma acgtb_forall : forall w, forallb acgtb w = true <-> Forall acgt w.
+Proof.
+  intro w. rewrite forallb_forall, Forall_forall.
+  split; intros H x Hx; specialize (H x Hx); unfold acgtb, acgt in *; lia.
+Qed.
+
+Lemma windows_short : forall k c, (length c < k)%nat -> windows k c = [].
+Proof.
+  intros k c. induction c as [| a c IH]; intro H; [reflexivity |].
+  cbn [windows]. destruct (Nat.leb_spec k (length (a :: c))) as [L | L]; [lia |].
+  cbn [app]. apply IH. cbn [length] in H. lia.
+Qed.
+
+(* a window that contains a non-ACGT symbol is filtered out *)
+Lemma windows_skip_bad : forall k t b l, (length t < k)%nat -> acgtb b = false ->
+  filter (forallb acgtb) (windows k (t ++ b :: l)) = filter (forallb acgtb) (windows k l).
+Proof.
+  intros k t b l. induction t as [| a t IH]; intros Hk Hb.
+  - cbn [app windows]. destruct (k <=? length (b :: l))%nat; [| reflexivity].
+    cbn [app filter]. destruct k as [| k]; [inversion Hk |].
+    cbn [firstn forallb]. rewrite Hb. reflexivity.
+  - cbn [app windows]. cbn [length] in Hk.
+    destruct (k <=? length (a :: t ++ b :: l))%nat.
+    + cbn [app filter].
+      assert (E : forallb acgtb (firstn k (a :: t ++ b :: l)) = false).
+      { change (a :: t ++ b :: l) with ((a :: t) ++ b :: l).
+        rewrite firstn_app. rewrite forallb_app.
+        replace (k - length (a :: t))%nat with (S (k - length (a :: t) - 1)) by (cbn [length]; lia).
+        cbn [firstn forallb]. rewrite Hb. apply andb_false_r. }
+      rewrite E. apply IH; [lia | exact Hb].
+    + cbn [app]. apply IH; [lia | exact Hb].
+Qed.
+
+(* the first window of w ++ l, |w| = k *)
+Lemma windows_first : forall k w l, (1 <= k)%nat -> length w = k ->
+  windows k (w ++ l) = w :: windows k (tl w ++ l).
+Proof.
+  intros k w l Hk Hw. destruct w as [| a w]; [cbn [length] in Hw; lia |].
+  cbn [app windows tl].
+  destruct (Nat.leb_spec k (length (a :: w ++ l))) as [L | L].
+  - cbn [app]. f_equal.
+    change (a :: w ++ l) with ((a :: w) ++ l). rewrite firstn_app, Hw, Nat.sub_diag.
+    cbn [firstn]. rewrite app_nil_r. rewrite <- Hw. apply firstn_all.
+  - cbn [length] in L, Hw. rewrite app_length in L. lia.
+Qed.
+
+Lemma kmax_new_feed : forall k r, kmax (feed (kmer_new k) r) = k.
+Proof. intros. rewrite kmax_feed. reflexivity. Qed.
+
+(* state after any run r of ACGT symbols *)
+Lemma feed_ge : forall k r, kdom k -> Forall acgt r -> k <= lenN r ->
+  feed (kmer_new k) r = st_full k (lastn (N.to_nat k) r).
+Proof.
+  intros k r Hk Hr Hge. unfold lastn.
+  set (m := (length r - N.to_nat k)%nat).
+  assert (Hlen : lenN (skipn m r) = k).
+  { unfold lenN in *. rewrite skipn_length. unfold m. lia. }
+  rewrite <- (firstn_skipn m r) in Hr. apply Forall_app in Hr. destruct Hr as [Ha Hb].
+  rewrite <- (firstn_skipn m r) at 1. apply feed_full; assumption.
+Qed.
+
+Lemma enum_loop_spec : forall k k' l r, kdom k -> N.to_nat k = S k' -> Forall acgt r ->
+  enum_loop (feed (kmer_new k) r) l
+  = map (canon k) (filter (forallb acgtb) (windows (S k') (lastn k' r ++ l))).
+Proof.
+  intros k k' l. induction l as [| b l IH]; intros r Hk Hk' Hr.
+  - cbn [enum_loop]. rewrite app_nil_r. rewrite windows_short; [reflexivity |].
+    rewrite lastn_length. lia.
+  - cbn [enum_loop]. destruct (N.ltb_spec 3 b) as [Hb | Hb].
+    + unfold kmer_reset. rewrite kmax_new_feed.
+      change (mkKmer 0 0 0 k) with (feed (kmer_new k) []).
+      rewrite (IH [] Hk Hk' (Forall_nil _)).
+      rewrite windows_skip_bad.
+      * reflexivity.
+      * rewrite lastn_length. lia.
+      * unfold acgtb. apply N.ltb_ge. lia.
+    + assert (Hb' : acgt b) by (unfold acgt; lia).
+      rewrite <- feed_snoc.
+      assert (Hr' : Forall acgt (r ++ [b])).
+      { apply Forall_app. split; [exact Hr | constructor; [exact Hb' | constructor]]. }
+      rewrite (IH (r ++ [b]) Hk Hk' Hr').
+      destruct (N.lt_ge_cases (lenN (r ++ [b])) k) as [Hlt | Hge].
+      * (* still filling *)
+        assert (Ef : is_full (feed (kmer_new k) (r ++ [b])) = false).
+        { rewrite (feed_fill k _ Hk Hr') by lia. unfold is_full, st_fill. cbn [kcur kmax].
+          apply N.eqb_neq. lia. }
+        rewrite Ef.
+        assert (Hl : (length (r ++ [b]) <= k')%nat) by (unfold lenN in Hlt; lia).
+        rewrite (lastn_all _ k' (r ++ [b]) Hl).
+        rewrite (lastn_all _ k' r) by (rewrite app_length in Hl; cbn [length] in Hl; lia).
+        rewrite <- app_assoc. reflexivity.
+      * (* window full *)
+        rewrite (feed_ge k _ Hk Hr' Hge).
+        unfold is_full at 1, data_canonical, st_full at 1 2 3. cbn [kcur kmax kdir krc].
+        rewrite N.eqb_refl. rewrite Hk'.
+        assert (Hl : (k' <= length r)%nat).
+        { unfold lenN in Hge. rewrite app_length in Hge. cbn [length] in Hge. lia. }
+        rewrite (lastn_snoc _ k' r b Hl).
+        set (w := lastn k' r ++ [b]).
+        assert (Hw : length w = S k').
+        { unfold w. rewrite app_length, lastn_length. cbn [length]. lia. }
+        replace (lastn k' r ++ b :: l) with (w ++ l)
+          by (unfold w; rewrite <- app_assoc; reflexivity).
+        rewrite (windows_first (S k') w l ltac:(lia) Hw).
+        cbn [filter].
+        assert (Hwa : forallb acgtb w = true).
+        { apply acgtb_forall. unfold w. apply Forall_app. split.
+          - unfold lastn. rewrite <- (firstn_skipn (length r - k') r) in Hr.
+            apply Forall_app in Hr. apply Hr.
+          - constructor; [exact Hb' | constructor]. }
+        rewrite Hwa. cbn [map]. f_equal.
+        f_equal. f_equal. f_equal.
+        rewrite (lastn_tl _ k' (r ++ [b])) by (rewrite app_length; cbn [length]; lia).
+        rewrite (lastn_snoc _ k' r b Hl). reflexivity.
+Qed.
+
+Lemma kmers_spec_proof : forall k c, 1 <= k <= 32 -> enumerate_kmers c k = kmers_spec k c.
+Proof.
+  intros k c Hk. unfold enumerate_kmers, kmers_spec.
+  destruct (N.ltb_spec (lenN c) k) as [Hlt | Hge].
+  - rewrite windows_short; [reflexivity |]. unfold lenN in Hlt. lia.
+  - assert (Hk' : N.to_nat k = S (Nat.pred (N.to_nat k))) by (destruct Hk; lia).
+    change (kmer_new k) with (feed (kmer_new k) []).
+    rewrite (enum_loop_spec k _ c [] Hk Hk' (Forall_nil _)).
+    rewrite <- Hk'. reflexivity.
+Qed.
+
+Lemma windows_restart : forall kn pre b post, (1 <= kn)%nat -> acgtb b = false ->
+  filter (forallb acgtb) (windows kn (pre ++ b :: post))
+  = filter (forallb acgtb) (windows kn pre) ++ filter (forallb acgtb) (windows kn post).
+Proof.
+  intros kn pre b post Hk1 Hbb. induction pre as [| a pre IH].
+  - cbn [app windows filter]. apply (windows_skip_bad kn [] b post); [cbn [length]; lia | exact Hbb].
+  - cbn [app windows]. rewrite !filter_app, IH.
+    assert (E : filter (forallb acgtb)
+                  (if (kn <=? length (a :: pre ++ b :: post))%nat
+                   then [firstn kn (a :: pre ++ b :: post)] else [])
+                = filter (forallb acgtb)
+                  (if (kn <=? length (a :: pre))%nat then [firstn kn (a :: pre)] else [])).
+    { destruct (Nat.leb_spec kn (length (a :: pre))) as [L | L].
+      + (* the window lies inside pre *)
+        assert (L' : (kn <= length (a :: pre ++ b :: post))%nat).
+        { cbn [length] in *. rewrite app_length. lia. }
+        apply Nat.leb_le in L'. rewrite L'.
+        change (a :: pre ++ b :: post) with ((a :: pre) ++ b :: post).
+        rewrite firstn_app. replace (kn - length (a :: pre))%nat with 0%nat by lia.
+        cbn [firstn]. rewrite app_nil_r. reflexivity.
+      + (* the window would contain b *)
+        destruct (kn <=? length (a :: pre ++ b :: post))%nat; [| reflexivity].
+        cbn [filter].
+        change (a :: pre ++ b :: post) with ((a :: pre) ++ b :: post).
+        rewrite firstn_app, forallb_app.
+        replace (kn - length (a :: pre))%nat with (S (kn - length (a :: pre) - 1)) by lia.
+        cbn [firstn forallb]. rewrite Hbb, andb_false_r. reflexivity. }
+    rewrite E, app_assoc. reflexivity.
+Qed.
+
+(* a symbol > 3 restarts the window: what precedes it has no influence on what follows *)
+Lemma non_acgt_restarts_proof : forall k pre b post, 1 <= k <= 32 -> 3 < b ->
+  enumerate_kmers (pre ++ b :: post) k = enumerate_kmers pre k ++ enumerate_kmers post k.
+Proof.
+  intros k pre b post Hk Hb. rewrite !(kmers_spec_proof _ _ Hk). unfold kmers_spec.
+  rewrite <- map_app. apply (f_equal (map (canon k))).
+  apply windows_restart; [destruct Hk; lia | unfold acgtb; apply N.ltb_ge; lia].
+Qed.
